@@ -26,6 +26,23 @@ inductive Val where
   | nat (n : Nat) | int (v : Int) | bytes (b : Bytes) | bool (b : Bool) | oid (o : List Nat)
   | bits (len : Int) (b : Bytes) | null | present | absent | presentBytes (b : Bytes)
   | time (t : ZV.Time.GoTime)
+  | skipped                                  -- Skip / SkipASN1: bytes consumed, nothing returned
+  | tagged (tag : UInt8) (b : Bytes)         -- ReadAnyASN1 / ReadAnyASN1Element: (outTag, out)
+  deriving Repr, DecidableEq
+
+/-- ALTERNATIVE READERS of what existing Builder calls write (leaf payloads): the write side is
+    `AddBytes` / `AddASN1(tag){AddBytes}` / `AddASN1BitString` / nothing, the read side is the String method
+    named in the comment. -/
+inductive Alt where
+  | skip (b : Bytes)                         -- AddBytes ↔ Skip(len)
+  | copy (b : Bytes)                         -- AddBytes ↔ CopyBytes(out) with len(out) = len
+  | elem (tag : UInt8) (b : Bytes)           -- AddASN1(tag){AddBytes} ↔ ReadASN1Element(&out, tag)
+  | any (tag : UInt8) (b : Bytes)            -- … ↔ ReadAnyASN1(&out, &outTag)
+  | anyElem (tag : UInt8) (b : Bytes)        -- … ↔ ReadAnyASN1Element(&out, &outTag)
+  | skipAsn1 (tag : UInt8) (b : Bytes)       -- … ↔ SkipASN1(tag)
+  | skipOpt (tag : UInt8) (b : Bytes)        -- … ↔ SkipOptionalASN1(tag)   (element present)
+  | noSkipOpt (tag : UInt8)                  -- nothing ↔ SkipOptionalASN1(tag)   (element absent)
+  | bitsBytes (b : Bytes)                    -- AddASN1BitString ↔ ReadASN1BitStringAsBytes
   deriving Repr, DecidableEq
 
 inductive Prog where
@@ -51,7 +68,39 @@ inductive Prog where
   | optBool (v dflt : Bool) (k : Prog)
   | noBool (dflt : Bool) (k : Prog)
   | gtime (t : ZV.Time.GoTime) (k : Prog)        -- AddASN1GeneralizedTime ↔ ReadASN1GeneralizedTime
+  | alt (a : Alt) (k : Prog)                     -- an existing write call read back by another reader (see `Alt`)
+  | setErr (k : Prog)                            -- SetError(non-nil): nothing written, nothing read
+  | value (body : Prog) (fail : Bool) (k : Prog) -- AddValue(v): v.Marshal(b) runs `body` on b itself and returns an
+                                                 -- error iff `fail`; read back inline (no framing)
   deriving Repr
+
+/-- `p.seq q`: the calls of `p`, then the calls of `q`, on the same Builder / String. -/
+def Prog.seq : Prog → Prog → Prog
+  | .done, q => q
+  | .uN w v k, q => .uN w v (k.seq q)
+  | .raw b k, q => .raw b (k.seq q)
+  | .lp n body k, q => .lp n body (k.seq q)
+  | .asn1 tag body k, q => .asn1 tag body (k.seq q)
+  | .int64 tag v k, q => .int64 tag v (k.seq q)
+  | .uint64 v k, q => .uint64 v (k.seq q)
+  | .big v k, q => .big v (k.seq q)
+  | .bool v k, q => .bool v (k.seq q)
+  | .oid o k, q => .oid o (k.seq q)
+  | .octets b k, q => .octets b (k.seq q)
+  | .bitstr b k, q => .bitstr b (k.seq q)
+  | .null k, q => .null (k.seq q)
+  | .optAsn1 tag body k, q => .optAsn1 tag body (k.seq q)
+  | .noAsn1 tag k, q => .noAsn1 tag (k.seq q)
+  | .optInt tag v d k, q => .optInt tag v d (k.seq q)
+  | .noInt tag d k, q => .noInt tag d (k.seq q)
+  | .optOctets tag b k, q => .optOctets tag b (k.seq q)
+  | .noOctets tag k, q => .noOctets tag (k.seq q)
+  | .optBool v d k, q => .optBool v d (k.seq q)
+  | .noBool d k, q => .noBool d (k.seq q)
+  | .gtime t k, q => .gtime t (k.seq q)
+  | .alt a k, q => .alt a (k.seq q)
+  | .setErr k, q => .setErr (k.seq q)
+  | .value body fail k, q => .value body fail (k.seq q)
 
 /-! ## low-level Builder -/
 
@@ -126,6 +175,28 @@ def addASN1 (b : Builder) (tag : UInt8) (f : Builder → Builder) : Builder :=
   else if tag.toNat % 32 = 31 then { b with err := true }             -- high-tag-number form
   else addLengthPrefixed (add b [tag]) 1 true f
 
+/-- write side of the alternative-reader ops -/
+def altBuild (a : Alt) (b : Builder) : Builder :=
+  match a with
+  | .skip bs => add b bs
+  | .copy bs => add b bs
+  | .elem tag bs => addASN1 b tag (fun c => add c bs)
+  | .any tag bs => addASN1 b tag (fun c => add c bs)
+  | .anyElem tag bs => addASN1 b tag (fun c => add c bs)
+  | .skipAsn1 tag bs => addASN1 b tag (fun c => add c bs)
+  | .skipOpt tag bs => addASN1 b tag (fun c => add c bs)
+  | .noSkipOpt _ => b
+  | .bitsBytes bs => addASN1 b 3 (fun c => add (add c [0]) bs)
+
+/-- `(*Builder).SetError(err)` with a non-nil error: `b.err = err`. -/
+def setError (b : Builder) : Builder := { b with err := true }
+
+/-- `(*Builder).AddValue(v)`: `err := v.Marshal(b); if err != nil { b.err = err }` — `marshal` is what
+    `v.Marshal` does to the Builder, `fail` whether it returns a non-nil error. -/
+def addValue (b : Builder) (marshal : Builder → Builder) (fail : Bool) : Builder :=
+  let b1 := marshal b
+  if fail then { b1 with err := true } else b1
+
 /-- run the write side of a program on a Builder -/
 def build : Prog → Builder → Builder
   | .done, b => b
@@ -154,6 +225,9 @@ def build : Prog → Builder → Builder
   | .gtime t k, b =>
     build k (if t.year < 0 ∨ t.year > 9999 then { b with err := true }   -- `b.err = fmt.Errorf(…); return`
              else addASN1 b 0x18 (fun c => add c (ZV.Time.format ZV.Time.layoutGen t)))
+  | .alt a k, b => build k (altBuild a b)
+  | .setErr k, b => build k (setError b)
+  | .value body fail k, b => build k (addValue b (build body) fail)
 
 /-- `var b Builder; …; b.Bytes()` -/
 def buildBytes (p : Prog) : Res Bytes :=
@@ -182,6 +256,18 @@ def elementR (tag : UInt8) (body : Res Bytes) : Res Bytes :=
   | .err => .err
   | .panic => .panic
 
+def altSer (a : Alt) : Res Bytes :=
+  match a with
+  | .skip bs => .ok bs
+  | .copy bs => .ok bs
+  | .elem tag bs => CB.element tag bs
+  | .any tag bs => CB.element tag bs
+  | .anyElem tag bs => CB.element tag bs
+  | .skipAsn1 tag bs => CB.element tag bs
+  | .skipOpt tag bs => CB.element tag bs
+  | .noSkipOpt _ => .ok []
+  | .bitsBytes bs => CB.addASN1BitString 0 bs
+
 def ser : Prog → Res Bytes
   | .done => .ok []
   | .uN w v k => Res.append (.ok (beBytes w v)) (ser k)
@@ -205,6 +291,68 @@ def ser : Prog → Res Bytes
   | .optBool v _ k => Res.append (CB.addASN1Boolean v) (ser k)
   | .noBool _ k => ser k
   | .gtime t k => Res.append (ZV.Time.CB.addGeneralizedTime t) (ser k)
+  | .alt a k => Res.append (altSer a) (ser k)
+  | .setErr k => Res.append .err (ser k)
+  | .value body fail k => Res.append (Res.append (ser body) (if fail then .err else .ok [])) (ser k)
+
+/-! ## builder-only programs: `Unwrite`, `SetError` and blocks (no mirrored reader) -/
+
+inductive BProg where
+  | done
+  | add (bs : Bytes) (k : BProg)                 -- AddBytes
+  | unwrite (n : Nat) (k : BProg)                -- Unwrite(n), n ≥ 0
+  | setErr (k : BProg)                           -- SetError(non-nil)
+  | lp (n : Nat) (body k : BProg)                -- AddUint8/16/24/32LengthPrefixed
+  | asn1 (tag : UInt8) (body k : BProg)          -- AddASN1
+  deriving Repr
+
+/-- `(*Builder).Unwrite(n)` for `n ≥ 0` (the `child != nil` panic cannot happen inside a program). -/
+def unwrite (b : Builder) (n : Nat) : Builder :=
+  if b.err then b
+  else if b.result.length < b.pendingLenLen + b.offset then { b with err := true, panicked := true }
+  else if n > b.result.length - b.pendingLenLen - b.offset then
+    { b with err := true, panicked := true }        -- attempted to unwrite more than was written
+  else { b with result := b.result.take (b.result.length - n) }
+
+/-- low level; a panic leaves `err` set as well, so everything after it is a no-op. -/
+def bbuild : BProg → Builder → Builder
+  | .done, b => b
+  | .add bs k, b => bbuild k (add b bs)
+  | .unwrite n k, b => bbuild k (unwrite b n)
+  | .setErr k, b => bbuild k (setError b)
+  | .lp n body k, b => bbuild k (addLengthPrefixed b n false (bbuild body))
+  | .asn1 tag body k, b => bbuild k (addASN1 b tag (bbuild body))
+
+def bbuildBytes (p : BProg) : Res Bytes :=
+  let b := bbuild p {}
+  if b.panicked then .panic else if b.err then .err else .ok b.result
+
+/-- specification: `acc` = the bytes written so far INTO THE CURRENT BLOCK (after its length prefix); the result
+    is the block's final content.  `Unwrite(n)` drops the last `n` bytes of the block and panics when the
+    block holds fewer — it can never reach the block's own length prefix or the parent's bytes. -/
+def bspec : BProg → Bytes → Res Bytes
+  | .done, acc => .ok acc
+  | .add bs k, acc => bspec k (acc ++ bs)
+  | .unwrite n k, acc => if n > acc.length then .panic else bspec k (acc.take (acc.length - n))
+  | .setErr _, _ => .err
+  | .lp n body k, acc =>
+    (match bspec body [] with
+     | .ok c => (match lpBytes n (.ok c) with
+        | .ok x => bspec k (acc ++ x)
+        | .err => .err
+        | .panic => .panic)
+     | .err => .err
+     | .panic => .panic)
+  | .asn1 tag body k, acc =>
+    if tag.toNat % 32 = 31 then .err
+    else
+      (match bspec body [] with
+       | .ok c => (match CB.element tag c with
+          | .ok x => bspec k (acc ++ x)
+          | .err => .err
+          | .panic => .panic)
+       | .err => .err
+       | .panic => .panic)
 
 /-! ## String readers -/
 
@@ -266,6 +414,96 @@ def readOptionalOctets (s : Bytes) (tag : UInt8) : Res (Option Bytes × Bytes) :
     `if !s.PeekASN1Tag(BOOLEAN) { *out = default; return true }; return s.ReadASN1Boolean(out)`. -/
 def readOptionalBool (s : Bytes) (dflt : Bool) : Res (Bool × Bytes) :=
   if !peekTag s 1 then .ok (dflt, s) else CB.readBool s
+
+/-- the bytes a successful element read consumed: `out` of `readASN1(…, skipHeader = false)` is
+    `(*s)[:length]`, the String is left at `(*s)[length:]`. -/
+def consumed (s rest : Bytes) : Bytes := s.take (s.length - rest.length)
+
+/-- the String side of the alternative-reader ops (`Skip`, `CopyBytes`, `ReadASN1Element`, `ReadAnyASN1`,
+    `ReadAnyASN1Element`, `SkipASN1`, `SkipOptionalASN1`, `ReadASN1BitStringAsBytes`). -/
+def altRead (a : Alt) (s : Bytes) : Res (Val × Bytes) :=
+  match a with
+  | .skip bs =>
+    (match readBytes bs.length s with
+     | .ok (_, r) => .ok (.skipped, r)
+     | .err => .err
+     | .panic => .panic)
+  | .copy bs =>
+    (match readBytes bs.length s with
+     | .ok (v, r) => .ok (.bytes v, r)
+     | .err => .err
+     | .panic => .panic)
+  | .elem tag _ =>
+    (match CB.readASN1 s with
+     | .ok e => if e.tag ≠ tag then .err else .ok (.bytes (consumed s e.rest), e.rest)
+     | .err => .err
+     | .panic => .panic)
+  | .any _ _ =>
+    (match CB.readASN1 s with
+     | .ok e => .ok (.tagged e.tag e.body, e.rest)
+     | .err => .err
+     | .panic => .panic)
+  | .anyElem _ _ =>
+    (match CB.readASN1 s with
+     | .ok e => .ok (.tagged e.tag (consumed s e.rest), e.rest)
+     | .err => .err
+     | .panic => .panic)
+  | .skipAsn1 tag _ =>
+    (match CB.readASN1Tag s tag with
+     | .ok (_, r) => .ok (.skipped, r)
+     | .err => .err
+     | .panic => .panic)
+  | .skipOpt tag _ =>
+    if !peekTag s tag then .ok (.absent, s)
+    else (match CB.readASN1Tag s tag with
+     | .ok (_, r) => .ok (.present, r)
+     | .err => .err
+     | .panic => .panic)
+  | .noSkipOpt tag =>
+    if !peekTag s tag then .ok (.absent, s)
+    else (match CB.readASN1Tag s tag with
+     | .ok (_, r) => .ok (.present, r)
+     | .err => .err
+     | .panic => .panic)
+  | .bitsBytes _ =>
+    (match CB.readASN1Tag s 3 with
+     | .ok (body, r) =>
+       (match body with
+        | [] => .err
+        | pad :: data => if pad ≠ 0 then .err else .ok (.bytes data, r))
+     | .err => .err
+     | .panic => .panic)
+
+/-- the bytes of a whole element (`[]` where the Builder refuses it; such programs are never read). -/
+def elemBytes (tag : UInt8) (bs : Bytes) : Bytes :=
+  match CB.element tag bs with
+  | .ok x => x
+  | _ => []
+
+/-- what the alternative reader must return for what was written -/
+def altVal (a : Alt) : Val :=
+  match a with
+  | .skip _ => .skipped
+  | .copy bs => .bytes bs
+  | .elem tag bs => .bytes (elemBytes tag bs)
+  | .any tag bs => .tagged tag bs
+  | .anyElem tag bs => .tagged tag (elemBytes tag bs)
+  | .skipAsn1 _ _ => .skipped
+  | .skipOpt _ _ => .present
+  | .noSkipOpt _ => .absent
+  | .bitsBytes bs => .bytes bs
+
+/-- read `body` inline (no framing), then `k` from what is left (`AddValue` has no reader of its own). -/
+def inline (rb : Bytes → Res (List Val × Bytes)) (rk : Bytes → Res (List Val × Bytes))
+    (s : Bytes) : Res (List Val × Bytes) :=
+  match rb s with
+  | .ok (vs, r) =>
+    (match rk r with
+     | .ok (ws, r2) => .ok (vs ++ ws, r2)
+     | .err => .err
+     | .panic => .panic)
+  | .err => .err
+  | .panic => .panic
 
 def cons {α} (v : Val) (r : Res (List Val × α)) : Res (List Val × α) :=
   match r with
@@ -399,6 +637,13 @@ def readProg : Prog → Bytes → Res (List Val × Bytes)
      | .ok (v, r) => cons (.time v) (readProg k r)
      | .err => .err
      | .panic => .panic)
+  | .alt a k, s =>
+    (match altRead a s with
+     | .ok (v, r) => cons v (readProg k r)
+     | .err => .err
+     | .panic => .panic)
+  | .setErr k, s => readProg k s
+  | .value body _ k, s => inline (readProg body) (readProg k) s
 
 /-- the values a program writes (what the mirrored read must return) -/
 def values : Prog → List Val
@@ -424,5 +669,8 @@ def values : Prog → List Val
   | .optBool v _ k => .bool v :: values k
   | .noBool d k => .bool d :: values k
   | .gtime t k => .time (ZV.Time.readBack t) :: values k
+  | .alt a k => altVal a :: values k
+  | .setErr k => values k
+  | .value body _ k => values body ++ values k
 
 end ZV.C21
